@@ -13,6 +13,7 @@ import (
 	"fmt"
 	"math/big"
 	"os"
+	"runtime"
 	"sort"
 	"strings"
 	"sync"
@@ -824,7 +825,7 @@ func classifyViolation(cc caseCfg, arr []arrival, rs []*remState, l, r *death) s
 
 func genRounds(r *sim.Rand, cc caseCfg) [][]arrival {
 	keys := genKeys(r, cc)
-	nr := r.Range(1, 2)
+	nr := r.Range(1, 3)
 	var out [][]arrival
 	for j := 0; j < nr; j++ {
 		n := r.Range(8, 64)
@@ -865,6 +866,7 @@ func concurrentRounds(args sim.Args, v *sim.Verdict, rp replay, s *sut, history 
 		probs := make([]string, n)
 		var wg sync.WaitGroup
 		start := make(chan struct{})
+		var ready atomic.Int64
 		for i := 0; i < n; i++ {
 			round[i].OffsetNs = off
 			kc := classify(cc.Remedies[round[i].Remedy], round[i])
@@ -878,6 +880,13 @@ func concurrentRounds(args sim.Args, v *sim.Verdict, rp replay, s *sut, history 
 					}
 				}()
 				<-start
+				// spin barrier (bounded, scheduling only): release the calls as close together as possible
+				ready.Add(1)
+				for spin := 0; ready.Load() < int64(n) && spin < 200000; spin++ {
+					if spin%64 == 63 {
+						runtime.Gosched()
+					}
+				}
 				call := tick.Add(1)
 				passed, status, problem := s.call(fmt.Sprintf("c%d-r%d-%d", rp.Case, ri, i), round[i])
 				ret := tick.Add(1)
